@@ -8,7 +8,8 @@
 // ASSUMPTION recorded by every obligation that uses it: the nom crate's combinators behave as documented
 // (https://docs.rs/nom/7): one_of / char / tag consume the matched prefix, alt tries in order and backtracks on Error,
 // many1 applies until the first Error and needs one success, separated_list1 is f (sep f)* and leaves a dangling separator unconsumed, opt turns Error into None, tuple / pair / preceded /
-// terminated sequence, value / map transform, space0 / space1 take spaces and tabs, eof succeeds on empty input, u32 reads a
+// terminated sequence, take_until(p) yields the text before the first occurrence of p (not consuming p) or an Error, rest yields
+// everything, value / map transform, space0 / space1 take spaces and tabs, eof succeeds on empty input, u32 reads a
 // decimal numeral that fits.  `Vec` as produced by many1 / vec! is a bounded vector (capacity stated per obligation; inputs
 // that would exceed it are outside the stated bound -- excluded by assumption, never reported).
 pub mod gnom {
@@ -68,6 +69,23 @@ pub mod gnom {
             self.n = base + o.n;
         }
     }
+    impl<T: Copy + Default + PartialEq> PartialEq for Vec<T> {
+        fn eq(&self, o: &Self) -> bool {
+            if self.n != o.n {
+                return false;
+            }
+            let mut r = true;
+            let mut i = 0;
+            while i < VCAP {
+                if i < self.n && self.e[i] != o.e[i] {
+                    r = false;
+                }
+                i += 1;
+            }
+            r
+        }
+    }
+    impl<T: Copy + Default + Eq> Eq for Vec<T> {}
     impl<T: Copy + Default> core::fmt::Debug for Vec<T> {
         fn fmt(&self, _f: &mut core::fmt::Formatter<'_>) -> core::fmt::Result {
             Ok(())
@@ -243,6 +261,37 @@ pub mod gnom {
     pub mod bytes {
         pub mod complete {
             use super::super::*;
+            /// take_until(pat): the text before the FIRST occurrence of the (ASCII) pattern, which itself is not consumed;
+            /// an Error when the pattern does not occur
+            pub fn take_until<'a>(pat: &'static str) -> impl Fn(&'a str) -> IResult<&'a str, &'a str> {
+                move |i: &'a str| {
+                    let (b, p) = (i.as_bytes(), pat.as_bytes());
+                    let mut found = b.len() + 1;
+                    let mut k = 0;
+                    while k < b.len() {
+                        if found > b.len() && k + p.len() <= b.len() {
+                            let mut ok = true;
+                            let mut j = 0;
+                            while j < p.len() {
+                                if b[k + j] != p[j] {
+                                    ok = false;
+                                }
+                                j += 1;
+                            }
+                            if ok {
+                                found = k;
+                            }
+                        }
+                        k += 1;
+                    }
+                    if found <= b.len() {
+                        // the pattern starts with an ASCII byte, so `found` is a character boundary
+                        Ok((&i[found..], &i[..found]))
+                    } else {
+                        fail(i, ErrorKind::Tag)
+                    }
+                }
+            }
             /// tag(t): the literal (ASCII) text t
             pub fn tag<'a>(t: &'static str) -> impl Fn(&'a str) -> IResult<&'a str, &'a str> {
                 move |i: &'a str| {
@@ -266,6 +315,10 @@ pub mod gnom {
     }
     pub mod combinator {
         use super::*;
+        /// rest: everything that is left
+        pub fn rest<'a>(i: &'a str) -> IResult<&'a str, &'a str> {
+            Ok((&i[i.len()..], i))
+        }
         pub fn map<'a, O1, O2, F, G>(mut p: F, mut f: G) -> impl FnMut(&'a str) -> IResult<&'a str, O2>
         where
             F: FnMut(&'a str) -> IResult<&'a str, O1>,
